@@ -8,11 +8,13 @@ import (
 	"fmt"
 	"hash"
 	"net/netip"
+	"os"
 	"runtime"
 	"sort"
 	"strconv"
 	"strings"
 	"sync"
+	"syscall"
 	"testing/synctest"
 	"time"
 
@@ -199,7 +201,8 @@ type World struct {
 
 	finished                  bool
 	FailedNew                 []string
-	FreeFailed, FreeEndpoints int // free-running mode: constructions that were failed / attempted
+	PortReused                bool // see performWrite
+	FreeFailed, FreeEndpoints int  // free-running mode: constructions that were failed / attempted
 	Fired                     []FiredFault
 	TapeUsed                  int
 	Choices                   int // decisions with more than one candidate
@@ -571,7 +574,11 @@ type SentinelError struct {
 	// Anon: the text names neither actor nor operation, as when several runs fail for the same
 	// reason ("permission denied"); the value is still a distinct error.
 	Anon bool
+	// Cause, when set, is what the injected error wraps: an errno a real socket operation fails with.
+	Cause error
 }
+
+func (e *SentinelError) Unwrap() error { return e.Cause }
 
 func (e *SentinelError) Error() string {
 	if e.Anon {
@@ -581,7 +588,35 @@ func (e *SentinelError) Error() string {
 }
 
 func (w *World) sentinel(o *op) error {
-	return &SentinelError{Actor: o.actor, Op: o.kind.String(), K: o.nth, Anon: o.fault != nil && o.fault.Anon}
+	se := &SentinelError{Actor: o.actor, Op: o.kind.String(), K: o.nth, Anon: o.fault != nil && o.fault.Anon}
+	if o.fault != nil {
+		se.Cause = errnoFor(o.fault.Errno)
+	}
+	return se
+}
+
+// errnoFor maps the scenario's errno name to the value a failing socket call returns. Only plainly
+// fatal ones: none of them means "deadline", "would block" or "interrupted".
+func errnoFor(name string) error {
+	switch name {
+	case "EPERM":
+		return syscall.EPERM
+	case "EACCES":
+		return syscall.EACCES
+	case "ENOBUFS":
+		return syscall.ENOBUFS
+	case "EINVAL":
+		return syscall.EINVAL
+	case "ENETDOWN":
+		return syscall.ENETDOWN
+	case "EHOSTUNREACH":
+		return syscall.EHOSTUNREACH
+	case "EMSGSIZE":
+		return syscall.EMSGSIZE
+	case "ErrPermission":
+		return os.ErrPermission
+	}
+	return nil
 }
 
 // symPort renders kernel-chosen ports symbolically, in order of first appearance.
